@@ -140,25 +140,25 @@ CHECKS["C17"] = dict(
 # Additions made while the checks were strengthened against seeded changes (see DESIGN.md section 6).
 ADDENDA = {
     "C01": "Server level: the REAL server binary (srvmc re-executed as kyrodb_server main()) runs under kvshim kill mode on an empty directory while a client drives a 7-operation write history over gRPC (snapshot every 2 mutations, 300-byte rotation); for n = 1, 2, ... until a run survives, the process dies right before its n-th file-system call under the data directory (second pass: after writing half of it when it is a write); the real binary is then restarted on what is left and must serve the acknowledged operations (+ optionally the one in flight); it is also killed during that start-up before its k-th call for every k, and the next start-up must serve the same collection.",
-    "C12": "Two large-member histories (dimension 64, 400-550 documents, with and without rotation: files of 100-250 KiB, several 64 KiB archive chunks) are backed up (full, incrementals across a snapshot, sibling incremental) and every backup restored by id and by point in time.",
+    "C12": "Two large-member histories (dimension 64, 400-550 documents, with and without rotation: files of 100-250 KiB, several 64 KiB archive chunks) are backed up (full, incrementals across a snapshot, sibling incremental) and every backup restored by id and by point in time. The tamper part restores each altered backup set by id AND through the point-in-time path.",
     "C11": "18 value classes incl. a 300-byte string and two numeric literals longer than 32 bytes.",
-    "C03": "The quick tier includes the capacity-3 configuration (index-full refusals incl. overwrite / update / delete at capacity, with and without a tombstone) and cosine with hnsw.disable_normalization_check = true.",
+    "C03": "The quick tier includes the capacity-3 configuration (index-full refusals incl. overwrite / update / delete at capacity, with and without a tombstone) and cosine with hnsw.disable_normalization_check = true. A 300-document batch delete (appended frame by frame) is put under a fault at every one of its file-system calls and under mid-batch short writes: a failed call must leave none of its delete records behind.",
     "C02": "Numeric-grid section: metric x dim {2,3,8,17,48} x two persistence configurations, a fixed lattice of un-normalised vectors over seven magnitudes with signed-zero components, restart mid-way (WAL replay), snapshot, two restarts, overwrites, restart; every restart compares live and recovered dumps bit for bit.",
-    "C04": "Each history is run twice: reading after every step and 'quiet' (reads only after the last step, every length 2..depth), because a read scrubs the stale copy it finds; the alphabet includes empty-metadata bulk load / overwrite / replace. Every quiet history that contains an adversarial poke is replayed four more times with get_document_with_metadata / get_embedding_cache_aware / get_metadata / bulk_query as the FIRST reader of every id (the battery otherwise starts with query, which scrubs what it finds).",
-    "C20": "A dedicated query-result-cache section enumerates all histories of depth 5 (6) over five distinct queries, boundary-crossing inserts, overwrite, delete and drain for capacity {1,2} x two metrics.",
+    "C04": "Each history is run twice: reading after every step and 'quiet' (reads only after the last step, every length 2..depth), because a read scrubs the stale copy it finds; the alphabet includes empty-metadata bulk load / overwrite / replace. Every quiet history that contains an adversarial poke is replayed four more times with get_document_with_metadata / get_embedding_cache_aware / get_metadata / bulk_query as the FIRST reader of every id (the battery otherwise starts with query, which scrubs what it finds). The grid includes tiny-index configurations (hnsw capacity 3: every few writes run tombstone compaction under whatever the caches and the recent-write tier still hold) and hard limits below the soft drain threshold.",
+    "C20": "A dedicated query-result-cache section enumerates all histories of depth 5 (6) over five distinct queries, boundary-crossing inserts, overwrite, delete and drain for capacity {1,2} x two metrics. The grid includes tiny-index configurations (tombstone compaction every few writes) and configurations whose hard limit lies below the soft drain threshold.",
     "C05": "Compaction family: from a full index with a tombstone in slot 0, an insert of a new id (tombstone compaction renumbers internal ids) races reads / delete / overwrite / metadata update of id 1 in both thread orders with <= 2 preemptions. Server level: Query (with embedding) and BulkQuery through the real in-process gRPC handlers x four writer programs x three initial states, every schedule with <= 2 (3) preemptions: the vector and the metadata of one response belong to the same write. The server-level slice also starts from the state where id 1 is absent and runs with and without authentication (64 programs).",
     "C06": "Alphabet includes bulk loads that bypass the recent-write tier. Because a search that meets a stale mirror scrubs it, each history is replayed on three more fresh engines whose queries (k=1000 first) go through one entry point only (first-touch pass). Large-batch section: batch sizes 33, 71, chunk+1 and 3*chunk+7 (chunk = the cold tier's max(32, 8 x rayon threads) queries per lock hold) through TieredEngine and HnswBackend batch search; every item is sound for ITS query and carries the distances of a single search for it. Concurrent slice (beyond the sequential quantifier): one searcher (knn_search, knn_search_batch, HnswBackend::knn_search, HnswBackend::knn_search_batch) x one writer whose insert / overwrite hits a full capacity-3 index with a tombstone in slot 0 and so runs tombstone compaction, every schedule with <= 2 (3) preemptions under ksched; every returned (document, distance) pair must be the true distance to a version of that document that existed during the race.",
-    "C07": "Histories start from the empty state and from two populated states. Part 4: the store-after-invalidate race — one searcher x one or two writers from populated states, every schedule with <= 2 (3) preemptions under the ksched scheduler; after join a repeated search served from the cache must be a valid fresh top-k of the engine's canonical store.",
+    "C07": "Histories start from the empty state and from two populated states. Part 4: the store-after-invalidate race — one searcher x one or two writers from populated states, every schedule with <= 2 (3) preemptions under the ksched scheduler; after join a repeated search served from the cache must be a valid fresh top-k of the engine's canonical store. Part 5: with the cold tier circuit breaker open (three rejected requests) a timed search answers from the recent-write tier alone; that degraded answer must not be stored: the sync and batch paths are asked next and a cache hit must be a valid fresh top-k (3 metrics x k 1..3 x near / far recent write).",
     "C08": "The catalogue has 24 operations incl. delete-by-filter / ids_for_metadata_filter through the index path and through the reference-matcher scan fallback, and delete by closure. Learned worlds carry the production access logger; the catalogue adds one predictor-training cycle (body of the training task's loop on the real objects), log_served_search_accesses and the non-forced flush.",
     "C09": "Tombstone-compaction family: a capacity-3 index that is full with a tombstone in slot 0, insert of a new id (runs compact_tombstones) racing delete / metadata update / overwrite / batch delete / snapshot in both thread orders with <= 2 preemptions; the live collection must equal the outcome of some serial order of the acknowledged writes, and strict recovery must reproduce it.",
     "C13": "Server level: the REAL server binary (srvmc re-executed as kyrodb_server's main()) produces the directory over gRPC + SIGTERM, then is started on every single-fault copy (file x deletion / truncation to 0 and half / bit flip first, middle, last byte): it must exit before its port opens or serve exactly the pre-damage collection. Every directory shape runs in both tiers, each built from the same logical instant; a wide-vector directory has a snapshot and a non-newest WAL segment larger than the readers' 8 KiB buffers (quick: every bit / length in the refill windows and at both file ends, a stride elsewhere; thorough: every bit and length).",
     "C14": "Request-shape section: every id list of length <= 3 over {1,2,3,absent} (all adjacent / non-adjacent repeat patterns) as BatchDelete(ids), BulkInsert and BulkLoadHnsw from every population of <= 3 documents with max_vectors = 3, followed by a refill that probes the limit. Server level: through the REAL binary a tenant at max_vectors is refused, may overwrite, is admitted after one delete and refused again, on first boot and after each of two restarts (main()'s start-up recount).",
-    "C10": "Server level: the REAL binary with authentication on — {no key, unknown, disabled, empty, Bearer unknown} x 9 RPCs must be UNAUTHENTICATED and change nothing; two tenants (one with two keys) using identical local ids and vectors see only their own documents through Query / BulkQuery / Search on first boot and after two restarts, with a tenant added to the key file in between (interceptor, persistent tenant map). Namespace section: one tenant, all sequences of depth 3 (4) over 16 write letters that move ids between namespaces while spoofing __namespace__ / __tenant_idx__ through every write RPC (UpdateMetadata on documents with and without a namespace) and selector-carrying updates / deletes; after every step Query, BulkQuery and Search under four selectors are compared with a reference model of document namespaces.",
+    "C10": "Server level: the REAL binary with authentication on — {no key, unknown, disabled, empty, Bearer unknown} x 9 RPCs must be UNAUTHENTICATED and change nothing; two tenants (one with two keys) using identical local ids and vectors see only their own documents through Query / BulkQuery / Search on first boot and after two restarts, with a tenant added to the key file in between (interceptor, persistent tenant map). Namespace section: one tenant, all sequences of depth 3 (4) over 16 write letters that move ids between namespaces while spoofing __namespace__ / __tenant_idx__ through every write RPC (UpdateMetadata on documents with and without a namespace) and selector-carrying updates / deletes; after every step Query, BulkQuery and Search under four selectors are compared with a reference model of document namespaces. The RPC alphabet includes an Insert with a tenant-local id of 2^32 + 1 (must be refused as out of range; added to the tenant base it would land in the next tenant id range).",
     "C15": "14 structurally malformed filters are sent bare as BatchDelete{filter}: answered; refused => unchanged; accepted => only documents the engine's reference matcher selects are removed; census after restart equals the live one. Streams include refused rows on the id of a valid row, with the acknowledged-rows oracle (the count the response reports must be the number of rows that explain the collection); long BulkSearch streams (127..300 requests, one wrong-dimension request at the 128-request batch boundary): n answers, answer i belongs to request i; the repeats section carries the most heavily oversampled filter shapes (NOT, IN(8), OR(4), range) at k 501 / 999 / 1000.",
     "C16": "Data, deleted fillers and queries come from one pool (same distribution); tight cluster-major family above the 1024-vector exhaustive-ef regime; the online route inserts in a shuffled arrival order; the heavy-delete route is also measured BEFORE compaction with 30 / 45 / 60 % of the slots tombstoned (held to the 0.80 floor only). Determinism after a cancelled search: with the --cfg kyrodb_verif hook every cancellation point of every search of a small index grid is enumerated; the same query repeated twice right after the cancelled search must return exactly the baseline answer.",
     "C17": "Cancellation at every cancellation point (hook-enumerated) under AddressSanitizer. Free-running ThreadSanitizer pass (instrumented std) over HnswBackend / TieredEngine scenarios as a complementary, non-exhaustive detector. Batch shapes: every row-length pattern of <= 3 rows over {dim, dim-1, dim+1, 0} (and a NaN row) through parallel_insert_batch on an empty and a non-empty index, followed by well-formed searches. Batches at / above the 100-row construction threshold with one malformed row at head / middle / tail. The ThreadSanitizer pass runs with suppressions for crossbeam-deque's documented push / steal race and a report counts only if one of five immediate reruns shows the same site.",
     "C18": "On the one-step frontier (rows that are safe or violate exactly one condition) every single deviation of a remaining setting (65 deviations covering all other configuration fields, incl. http_host loopback / non-loopback) x three routes; every row additionally as environment overrides on top of the four configuration templates shipped in the repository. Server level: the REAL binary launched per (environment, violated condition) x route must exit non-zero before its port opens; safe baselines must start.",
-    "C19": "Concurrent clause: 342 programs (6 configurations x 3 warm-up prefixes x 19 thread shapes of 2-3 callers) on the real RateLimiter, every schedule with <= 2 (3) preemptions under ksched; after join admitted <= burst + rate x measured interval per tenant and globally, tokens left in every bucket equal capacity - admitted up to the refill the interval allows, and a refused call implies an exhausted budget.",
+    "C19": "Concurrent clause: 342 programs (6 configurations x 3 warm-up prefixes x 19 thread shapes of 2-3 callers) on the real RateLimiter, every schedule with <= 2 (3) preemptions under ksched; after join admitted <= burst + rate x measured interval per tenant and globally, tokens left in every bucket equal capacity - admitted up to the refill the interval allows, and a refused call implies an exhausted budget. Server level: the REAL binary with authentication and rate limiting on (server default max_qps_per_connection 5, global 1000) takes 40 back-to-back Query calls from three tenants (explicit max_qps 5; max_qps 0 = server default, twice), twice with an idle 1.3 s in between, the interval measured around each burst on the caller clock: admitted <= burst + rate x interval + 1, and the first request of an idle tenant is admitted.",
 }
 TECH_ADD = {
     "C07": "; plus preemption-bounded exhaustive schedule exploration (ksched) of search || write for the store-after-invalidate race",
